@@ -12,6 +12,7 @@ import (
 	"strings"
 	"time"
 
+	"github.com/notaryproject/notation-go/log"
 	"github.com/notaryproject/notation-go/plugin"
 	"github.com/notaryproject/notation-go/plugin/proto"
 	pf "github.com/notaryproject/notation-plugin-framework-go/plugin"
@@ -54,6 +55,16 @@ var c17Valid = map[string]string{
 	"generate-signature":  `{"keyId":"key-1","signature":"c2lnbmF0dXJl","signingAlgorithm":"ECDSA-SHA-256","certificateChain":["Y2VydA=="]}`,
 	"generate-envelope":   `{"signatureEnvelope":"ZW52","signatureEnvelopeType":"application/jose+json","annotations":{"k":"v"}}`,
 	"verify-signature":    `{"verificationResults":{"SIGNATURE_VERIFIER.TRUSTED_IDENTITY":{"success":true,"reason":"ok"}},"processedAttributes":["a"]}`,
+}
+
+// what the neighbour's plugin (another call running in the same host process) answers: well-formed for the same
+// command, every value different, followed by 256 KiB of blanks
+var c17Neighbour = map[string]string{
+	"get-plugin-metadata": `{"name":"foo","description":"neighbour","version":"9.9.9","url":"https://example.com/nb","supportedContractVersions":["1.0"],"capabilities":["SIGNATURE_GENERATOR.ENVELOPE"]}`,
+	"describe-key":        `{"keyId":"nb-key","keySpec":"RSA-4096"}`,
+	"generate-signature":  `{"keyId":"nb-key","signature":"bmVpZ2hib3Vy","signingAlgorithm":"RSASSA-PSS-SHA-512","certificateChain":["bmI="]}`,
+	"generate-envelope":   `{"signatureEnvelope":"bmI=","signatureEnvelopeType":"application/cose","annotations":{"nb":"1"}}`,
+	"verify-signature":    `{"verificationResults":{"SIGNATURE_VERIFIER.REVOCATION_CHECK":{"success":false,"reason":"nb"}},"processedAttributes":["nb"]}`,
 }
 
 // stdout kinds
@@ -116,6 +127,11 @@ func (c17) Gen(r *rand.Rand, tier string, idx int) *core.Plan {
 	w["prelude"] = int64(r.IntN(4) / 3)
 	w["padSpace"] = int64(r.IntN(2))
 	w["sigpipe"] = int64(r.IntN(3) / 2)
+	// another goroutine of the host calls another plugin at the same time; the caller's logger is a scheduling point
+	w["neighbour"] = int64(r.IntN(3) / 2)
+	if w["neighbour"] == 1 {
+		p.Tape = core.Tape(r, 300, core.Pick(r, 0.1, 0.3, 0.6))
+	}
 	if big && r.IntN(3) == 0 {
 		// the family around the cap: a reply, padding that crosses the cap, something after it
 		w["out"] = int64(len(c17Outs) - 1)
@@ -134,7 +150,7 @@ func (c17) Gen(r *rand.Rand, tier string, idx int) *core.Plan {
 
 func (c17) Simplify(p *core.Plan) []*core.Plan {
 	var out []*core.Plan
-	def := map[string]int64{"exit": 0, "out": 0, "err": 0, "code": 0, "outSize": 0, "errSize": 0, "chunk": 32 * 1024, "order": 0, "timing": 0, "ctx": 0, "holdExit": 0, "sleepBeforeOutput": 0, "cmd": 0, "prelude": 0, "padSpace": 0, "sigpipe": 0}
+	def := map[string]int64{"exit": 0, "out": 0, "err": 0, "code": 0, "outSize": 0, "errSize": 0, "chunk": 32 * 1024, "order": 0, "timing": 0, "ctx": 0, "holdExit": 0, "sleepBeforeOutput": 0, "cmd": 0, "prelude": 0, "padSpace": 0, "sigpipe": 0, "neighbour": 0}
 	for k, v := range def {
 		if p.World[k] != v {
 			q := p.Clone()
@@ -347,6 +363,49 @@ func (l c17) Exec(env *core.Env) *core.Result {
 	if cancel != nil {
 		defer cancel()
 	}
+	call := func(c context.Context, pl pf.Plugin) (any, error) {
+		switch cmdName {
+		case "get-plugin-metadata":
+			return pl.GetMetadata(c, &pf.GetMetadataRequest{})
+		case "describe-key":
+			return pl.DescribeKey(c, &pf.DescribeKeyRequest{KeyID: "key-1"})
+		case "generate-signature":
+			return pl.GenerateSignature(c, &pf.GenerateSignatureRequest{KeyID: "key-1", KeySpec: pf.KeySpecEC256, Hash: pf.HashAlgorithmSHA256, Payload: []byte("payload")})
+		case "generate-envelope":
+			return pl.GenerateEnvelope(c, &pf.GenerateEnvelopeRequest{KeyID: "key-1", PayloadType: "application/vnd.cncf.notary.payload.v1+json", SignatureEnvelopeType: "application/jose+json", Payload: []byte("payload")})
+		}
+		return pl.VerifySignature(c, &pf.VerifySignatureRequest{})
+	}
+	nbExe := filepath.Join(env.Dir, "plugins-nb", c17Name, "notation-"+c17Name)
+	if w["neighbour"] == 1 {
+		ctx = log.WithLogger(ctx, yieldLogger{})
+		os.MkdirAll(filepath.Dir(nbExe), 0755)
+		os.WriteFile(nbExe, simexec.MakeExecutable("script", simexec.Script{"*": []simexec.Step{
+			// the same text on both streams (a chatty plugin that echoes its reply to its log)
+			{Op: "out", Fd: 2, Data: c17Neighbour[cmdName], Fill: 256 << 10, FillWith: " "},
+			{Op: "out", Fd: 1, Data: c17Neighbour[cmdName], Fill: 256 << 10, FillWith: " "}, {Op: "exit"}}}), 0755)
+		sim.Go("neighbour", func() {
+			nctx := log.WithLogger(context.Background(), yieldLogger{})
+			pl, err := plugin.NewCLIPlugin(nctx, c17Name, nbExe)
+			if err != nil {
+				return
+			}
+			for i := 0; i < 3; i++ {
+				got, err := call(nctx, pl)
+				if err != nil {
+					res.Probe("neighbour_call_failed")
+					continue
+				}
+				res.Probe("neighbour_call_succeeded")
+				want := reflect.New(reflect.TypeOf(got).Elem()).Interface()
+				if json.Unmarshal([]byte(c17Neighbour[cmdName]), want) == nil && !reflect.DeepEqual(want, got) {
+					wb, _ := json.Marshal(want)
+					gb, _ := json.Marshal(got)
+					res.Violate("C17/reply-of-another-call", "cmd="+cmdName, "a concurrent call to another plugin returned %s; its own process printed %s", gb, wb)
+				}
+			}
+		})
+	}
 	preN := 0
 	host := sim.Go("host", func() {
 		pl, err := plugin.NewCLIPlugin(ctx, c17Name, exe)
@@ -415,11 +474,24 @@ func (l c17) Exec(env *core.Env) *core.Result {
 	if preN <= len(execLog) {
 		execLog = execLog[preN:]
 	}
+	if w["neighbour"] == 1 {
+		// only the processes of the call under study
+		var own []*simexec.Exec
+		for _, e := range execLog {
+			if e.Path != nbExe {
+				own = append(own, e)
+			}
+		}
+		execLog = own
+	}
 	var rec *simexec.Exec
 	if len(execLog) > 0 {
 		rec = execLog[0]
 	}
 	key := fmt.Sprintf("cmd=%s exit=%d out=%s err=%s timing=%d ctx=%d", cmdName, exit, outKind, errKind, timing, w["ctx"])
+	if w["neighbour"] == 1 {
+		key += " neighbour=1"
+	}
 	outcome := "not-returned"
 	if returned {
 		outcome = "ok"
